@@ -285,15 +285,21 @@ def tool_op(kind, args=(), dry=False, verbose=False):
 
 
 def ninja_op(targets=(), j=1, k=1, faults=None, label=None, interrupt=False, flags=(), env=None, edits_during=(),
-             no_expand=False, subsets=True, tool=False, dry_run=False):
+             no_expand=False, subsets=True, tool=False, dry_run=False, jobserver=None, explicit_j=False):
+    """jobserver: {"tokens": T, "ext_held": H, "ext_max": M, "moves": N} -- the invocation is a client of a jobserver pool
+    (engine A seam S6a); no -j is passed then unless explicit_j (which makes ninja ignore the pool)."""
     fl = list(flags)
     if not tool:
-        fl = ["-j%d" % j, "-k%d" % k] + fl
+        fl = (["-j%d" % j] if (jobserver is None or explicit_j) else []) + ["-k%d" % k] + fl
     op = {"op": "ninja", "flags": fl, "targets": list(targets), "j": j, "k": k,
           "faults": faults or {}, "interrupt": interrupt, "subsets": subsets, "tool": tool, "dry_run": dry_run,
           "no_expand": no_expand}
     if env:
         op["env"] = env
+    if jobserver is not None:
+        op["jobserver"] = dict(jobserver)
+        if not explicit_j:
+            op["j"] = 0
     if edits_during:
         op["edits_during"] = [{"when": w, "path": p, "content": c} for (w, p, c) in edits_during]
     if label is None:
@@ -303,6 +309,9 @@ def ninja_op(targets=(), j=1, k=1, faults=None, label=None, interrupt=False, fla
                                             for n, f in sorted(faults.items()))
         if interrupt:
             label += " +interrupts"
+        if jobserver is not None:
+            label += " jobserver[%d in pool, other client holds %d of at most %d, %d moves]" % (
+                jobserver.get("tokens", 0), jobserver.get("ext_held", 0), jobserver.get("ext_max", 0), jobserver.get("moves", 0))
         if edits_during:
             label += " +edits"
     op["label"] = label
